@@ -18,7 +18,7 @@ package arp
 // AddLinkAddress with the sender's protocol and hardware address) from a reply, and from a
 // request only when it was answered; an invalid frame does nothing.
 //@ define arpReq(vv) = old(vv.views[0])
-//@ func (*endpoint).HandlePacket props C07 C12
+//@ func (*endpoint).HandlePacket props C07 C12 C06
 //@   requires e != nil && r != nil && e.linkEP != nil && e.linkAddrCache != nil && len(r.LocalLinkAddress) == 6
 //@   at_call CheckLocalAddress requires len(addr) == 4 && forall(k, 0, 4, byteat(addr, k) == arpReq(vv)[24 + k]) && protocol == header.IPv4ProtocolNumber
 //@   at_call WritePacket requires ghost(lastLocalCheck) != 0 && protocol == ProtocolNumber && len(hdr.buf) - hdr.usedIdx == header.ARPSize && payload.size == 0
